@@ -388,6 +388,8 @@ struct ProbeRender {
 struct Log {
     spy: Mutex<Vec<SpyRec>>,
     renders: Mutex<Vec<ProbeRender>>,
+    /// probe index -> tags of the Tag views around it, outermost first
+    probe_tags: Mutex<std::collections::HashMap<usize, Vec<u64>>>,
     depth: AtomicUsize,
     runaway: AtomicBool,
 }
@@ -654,6 +656,8 @@ struct Bld {
     log: Arc<Log>,
     node: usize,
     probe: usize,
+    /// tags of the enclosing Tag views, outermost first
+    tags: Vec<u64>,
 }
 
 fn build(n: &Node, b: &mut Bld, dyn_depth: usize) -> Box<dyn View> {
@@ -663,6 +667,7 @@ fn build(n: &Node, b: &mut Bld, dyn_depth: usize) -> Box<dyn View> {
         Node::Probe { h, w } => {
             let idx = b.probe;
             b.probe += 1;
+            b.log.probe_tags.lock().unwrap().insert(idx, b.tags.clone());
             Box::new(Probe { idx, want: Size::new(*h, *w), log: b.log.clone() })
         }
         Node::Text { kind, s, wraps, face: f } => match kind {
@@ -745,7 +750,12 @@ fn build(n: &Node, b: &mut Bld, dyn_depth: usize) -> Box<dyn View> {
             FRAME_NUM[*bw as usize % FRAME_NUM.len()],
             FRAME_NUM[*br as usize % FRAME_NUM.len()],
         )),
-        Node::Tag(child) => Box::new(Tag::new(me as u64, build(child, b, dyn_depth))),
+        Node::Tag(child) => {
+            b.tags.push(me as u64);
+            let inner = build(child, b, dyn_depth);
+            b.tags.pop();
+            Box::new(Tag::new(me as u64, inner))
+        }
         Node::Dynamic { same_type, child } => {
             let start = (b.node, b.probe);
             let (nn, np) = child.count();
@@ -753,8 +763,9 @@ fn build(n: &Node, b: &mut Bld, dyn_depth: usize) -> Box<dyn View> {
             b.probe += np;
             let child = (**child).clone();
             let log = b.log.clone();
+            let tags = b.tags.clone();
             let mk = move || -> Box<dyn View> {
-                let mut bb = Bld { log: log.clone(), node: start.0, probe: start.1 };
+                let mut bb = Bld { log: log.clone(), node: start.0, probe: start.1, tags: tags.clone() };
                 build(&child, &mut bb, dyn_depth + 1)
             };
             if *same_type {
@@ -1119,7 +1130,7 @@ fn run_one(case: &Case, ct: Ct, fails: &mut Vec<Fail>, obs: &mut Obs) -> Result<
     let root = match &case.src {
         Src::Built(node) => {
             let view = guard_val(|| {
-                let mut b = Bld { log: log.clone(), node: 0, probe: 0 };
+                let mut b = Bld { log: log.clone(), node: 0, probe: 0, tags: Vec::new() };
                 build(node, &mut b, 0)
             })
             .map_err(|f| with_case(f, "constructing the views"))?;
@@ -1227,6 +1238,14 @@ fn run_one(case: &Case, ct: Ct, fails: &mut Vec<Fail>, obs: &mut Obs) -> Result<
         return Ok(());
     }
     obs.labels.push(if rendered.is_ok() { "result/ok".into() } else { "result/render-err".into() });
+    if let Err(e) = &rendered {
+        // the layout was produced by this very tree under this very context: a view that then
+        // refuses to render has not painted the rectangle the layout tree records for it
+        fails.push(Fail::new(
+            "paint/render-error-after-successful-layout",
+            describe(&format!("layout_new succeeded but render returned {e:?}")),
+        ));
+    }
 
     // ---- oracle 2: nothing outside the window changed
     let window_rect = Rect::at(0, 0, win);
@@ -1367,6 +1386,28 @@ fn run_one(case: &Case, ct: Ct, fails: &mut Vec<Fail>, obs: &mut Obs) -> Result<
                 let p = l.position();
                 last = Rect::at(origin.0 + p.row as i128, origin.1 + p.col as i128, l.size());
                 origin = (last.r0, last.c0);
+            }
+            // the tags on the path identify the views drawn there: exactly the Tag views that
+            // enclose this probe, outermost first
+            let got_tags: Vec<u64> = path.iter().filter_map(|l| l.data::<u64>().copied()).collect();
+            let want_tags = log.probe_tags.lock().unwrap().get(&idx).cloned();
+            if let Some(want_tags) = want_tags {
+                if !(path.is_empty() || last != *own) && got_tags != want_tags {
+                    hit_failed = true;
+                    fails.push(Fail::new(
+                        "hit/tags-on-path-differ",
+                        describe(&format!(
+                            "cell ({r},{c}) is painted by probe {}, which is wrapped in Tag views {:?} (outermost first), but the layouts returned by find_path({:?}) carry the tags {:?}",
+                            probe_char(idx), want_tags, query, got_tags
+                        )),
+                    ));
+                }
+                if !want_tags.is_empty() {
+                    obs.labels.push("hit/probe-inside-tag".into());
+                }
+                if want_tags.len() >= 2 {
+                    obs.labels.push("hit/probe-inside-nested-tags".into());
+                }
             }
             if path.is_empty() || last != *own {
                 hit_failed = true;
